@@ -21,6 +21,12 @@ Proof.
   rewrite andb_true_iff, eqb_bytes_spec, N.eqb_eq. split; [intros [-> ->]; reflexivity|intros E; inversion E; auto].
 Qed.
 
+Lemma addr_eqb_spec : forall a b, addr_eqb a b = true <-> a = b.
+Proof.
+  intros [a1 a2] [b1 b2]. unfold addr_eqb; cbn [fst snd].
+  rewrite andb_true_iff, !eqb_bytes_spec. split; [intros [-> ->]; reflexivity|intros E; inversion E; auto].
+Qed.
+
 (** * Association lists behave like maps *)
 Section AL.
   Context {K V : Type} (eqb : K -> K -> bool).
@@ -347,6 +353,10 @@ Definition bytes_dec : forall a b : bytes, {a = b} + {a <> b} := list_eq_dec N.e
 Definition prefix_dec : forall a b : prefix, {a = b} + {a <> b}.
 Proof. decide equality; [apply N.eq_dec|apply bytes_dec]. Defined.
 
+Definition addr_dec : forall a b : addr, {a = b} + {a <> b}.
+Proof. decide equality; apply bytes_dec. Defined.
+
+Definition zmap_ok := map_ok addr (list (addr * uid)) zget.
 Definition bmap_ok := map_ok bytes (list (bytes * uid)) bget.
 Definition smap_ok := map_ok prefix (list (prefix * uid)) sm_get.
 
@@ -354,7 +364,7 @@ Record Inv (ix : index) : Prop := {
   inv_uid : forall u c, deref ix u = Some c -> c_uid c = u;
   inv_name : bmap_ok (deref ix) names_of (name_to ix);
   inv_cid : bmap_ok (deref ix) c_cids (cid_to ix);
-  inv_ip : bmap_ok (deref ix) c_ips (ip_to ix);
+  inv_ip : zmap_ok (deref ix) c_ips (ip_to ix);
   inv_mac : bmap_ok (deref ix) c_macs (mac_to ix);
   inv_subnet : smap_ok (deref ix) c_subnets (subnet_to ix);
   inv_sorted : sm_sorted (subnet_to ix)
@@ -375,6 +385,14 @@ Lemma bget_del_eq k (m : list (bytes * uid)) : bget k (bdel k m) = None.
 Proof. apply al_get_del_eq. Qed.
 Lemma bget_del_ne k k' (m : list (bytes * uid)) : k <> k' -> bget k' (bdel k m) = bget k' m.
 Proof. apply al_get_del_ne, eqb_bytes_spec. Qed.
+Lemma zget_set_eq k v (m : list (addr * uid)) : zget k (zset k v m) = Some v.
+Proof. apply al_get_set_eq, addr_eqb_spec. Qed.
+Lemma zget_set_ne k k' v (m : list (addr * uid)) : k <> k' -> zget k' (zset k v m) = zget k' m.
+Proof. apply al_get_set_ne, addr_eqb_spec. Qed.
+Lemma zget_del_eq k (m : list (addr * uid)) : zget k (zdel k m) = None.
+Proof. apply al_get_del_eq. Qed.
+Lemma zget_del_ne k k' (m : list (addr * uid)) : k <> k' -> zget k' (zdel k m) = zget k' m.
+Proof. apply al_get_del_ne, addr_eqb_spec. Qed.
 Lemma sm_get_del_eq k (m : list (prefix * uid)) : sm_get k (sm_del k m) = None.
 Proof. apply al_get_del_eq. Qed.
 Lemma sm_get_del_ne k k' (m : list (prefix * uid)) : k <> k' -> sm_get k' (sm_del k m) = sm_get k' m.
@@ -384,14 +402,14 @@ Lemma clashes_ok c ix :
   clashes c ix = EOk <->
   clash_key bget (names_of c) (c_uid c) (name_to ix) = None /\
   clash_key bget (c_cids c) (c_uid c) (cid_to ix) = None /\
-  clash_key bget (c_ips c) (c_uid c) (ip_to ix) = None /\
+  clash_key zget (c_ips c) (c_uid c) (ip_to ix) = None /\
   clash_key sm_get (c_subnets c) (c_uid c) (subnet_to ix) = None /\
   clash_key bget (c_macs c) (c_uid c) (mac_to ix) = None.
 Proof.
   unfold clashes, names_of.
   destruct (clash_key bget [c_name c] (c_uid c) (name_to ix)); [split; [discriminate|intros (H & _); discriminate]|].
   destruct (clash_key bget (c_cids c) (c_uid c) (cid_to ix)); [split; [discriminate|intros (_ & H & _); discriminate]|].
-  destruct (clash_key bget (c_ips c) (c_uid c) (ip_to ix)); [split; [discriminate|intros (_ & _ & H & _); discriminate]|].
+  destruct (clash_key zget (c_ips c) (c_uid c) (ip_to ix)); [split; [discriminate|intros (_ & _ & H & _); discriminate]|].
   destruct (clash_key sm_get (c_subnets c) (c_uid c) (subnet_to ix)); [split; [discriminate|intros (_ & _ & _ & H & _); discriminate]|].
   destruct (clash_key bget (c_macs c) (c_uid c) (mac_to ix)); [split; [discriminate|intros (_ & _ & _ & _ & H); discriminate]|].
   tauto.
@@ -429,7 +447,7 @@ Proof.
   - change (name_to (index_add c ix)) with (add_keys bset (names_of c) (c_uid c) (name_to ix)).
     eapply map_ok_add; eauto using bytes_dec, bget_set_eq, bget_set_ne.
   - cbn [index_add cid_to]. eapply map_ok_add; eauto using bytes_dec, bget_set_eq, bget_set_ne.
-  - cbn [index_add ip_to]. eapply map_ok_add; eauto using bytes_dec, bget_set_eq, bget_set_ne.
+  - cbn [index_add ip_to]. eapply map_ok_add; eauto using addr_dec, zget_set_eq, zget_set_ne.
   - cbn [index_add mac_to]. eapply map_ok_add; eauto using bytes_dec, bget_set_eq, bget_set_ne.
   - cbn [index_add subnet_to]. eapply map_ok_add; eauto using prefix_dec, @sm_get_set_eq, @sm_get_set_ne.
   - cbn [index_add subnet_to]. apply add_keys_sorted; assumption.
@@ -447,7 +465,7 @@ Proof.
   - change (name_to (index_remove c ix)) with (del_keys bdel (names_of c) (name_to ix)).
     eapply map_ok_remove; eauto using bytes_dec, bget_del_eq, bget_del_ne.
   - cbn [index_remove cid_to]. eapply map_ok_remove; eauto using bytes_dec, bget_del_eq, bget_del_ne.
-  - cbn [index_remove ip_to]. eapply map_ok_remove; eauto using bytes_dec, bget_del_eq, bget_del_ne.
+  - cbn [index_remove ip_to]. eapply map_ok_remove; eauto using addr_dec, zget_del_eq, zget_del_ne.
   - cbn [index_remove mac_to]. eapply map_ok_remove; eauto using bytes_dec, bget_del_eq, bget_del_ne.
   - cbn [index_remove subnet_to]. eapply map_ok_remove; eauto using prefix_dec, sm_get_del_eq, sm_get_del_ne.
   - cbn [index_remove subnet_to]. apply del_keys_sorted; assumption.
@@ -456,6 +474,9 @@ Qed.
 Lemma bclash_after_del ks ks' u (m : list (bytes * uid)) :
   clash_key bget ks u m = None -> clash_key bget ks u (del_keys bdel ks' m) = None.
 Proof. apply (clash_none_after_del _ _ bget bdel bytes_dec bget_del_eq bget_del_ne). Qed.
+Lemma zclash_after_del ks ks' u (m : list (addr * uid)) :
+  clash_key zget ks u m = None -> clash_key zget ks u (del_keys zdel ks' m) = None.
+Proof. apply (clash_none_after_del _ _ zget zdel addr_dec zget_del_eq zget_del_ne). Qed.
 Lemma sclash_after_del ks ks' u (m : list (prefix * uid)) :
   clash_key sm_get ks u m = None -> clash_key sm_get ks u (del_keys sm_del ks' m) = None.
 Proof. apply (clash_none_after_del _ _ sm_get sm_del prefix_dec sm_get_del_eq sm_get_del_ne). Qed.
@@ -466,7 +487,7 @@ Proof.
   rewrite !clashes_ok. intros (Cn & Cc & Ci & Cs & Cm).
   change (name_to (index_remove stored ix)) with (del_keys bdel (names_of stored) (name_to ix)).
   cbn [index_remove cid_to ip_to mac_to subnet_to].
-  auto 10 using bclash_after_del, sclash_after_del.
+  auto 10 using bclash_after_del, sclash_after_del, zclash_after_del.
 Qed.
 
 Lemma Inv_step ix o : Inv ix -> Inv (fst (step ix o)).
@@ -521,7 +542,7 @@ Definition owner_of {K} (ix : index) (keys : client -> list K) (k : K) (u : uid)
 Definition resolution_statement (ix : index) : Prop :=
   (forall n u, find_by_name ix n = Some u <-> owner_of ix names_of n u) /\
   (forall id u, find_by_cid ix id = Some u <-> owner_of ix c_cids id u) /\
-  (forall a u, bget a (ip_to ix) = Some u <-> owner_of ix c_ips a u) /\
+  (forall a u, zget a (ip_to ix) = Some u <-> owner_of ix c_ips a u) /\
   (forall m u, find_by_mac ix m = Some u <-> owner_of ix c_macs m u) /\
   (forall p u, sm_get p (subnet_to ix) = Some u <-> owner_of ix c_subnets p u).
 
@@ -570,7 +591,7 @@ Proof.
   intros [E|[(k & H1 & H2)|[(k & H1 & H2)|[(k & H1 & H2)|(k & H1 & H2)]]]].
   - eapply (no_clash_no_share _ _ bget (deref ix) names_of _ _ _ _ _ (c_name p) Hn Cn Hd Hne); cbn; auto.
   - eapply (no_clash_no_share _ _ bget (deref ix) c_cids _ _ _ _ _ k Hc Cc Hd Hne); assumption.
-  - eapply (no_clash_no_share _ _ bget (deref ix) c_ips _ _ _ _ _ k Hi Ci Hd Hne); assumption.
+  - eapply (no_clash_no_share _ _ zget (deref ix) c_ips _ _ _ _ _ k Hi Ci Hd Hne); assumption.
   - eapply (no_clash_no_share _ _ sm_get (deref ix) c_subnets _ _ _ _ _ k Hs Cs Hd Hne); assumption.
   - eapply (no_clash_no_share _ _ bget (deref ix) c_macs _ _ _ _ _ k Hm Cm Hd Hne); assumption.
 Qed.
@@ -610,16 +631,17 @@ Section Precedence.
 
   Definition no_cid := forall u, ~ owner_of ix c_cids id u.
   Definition no_ip := forall u, ~ owner_of ix c_ips a u.
-  Definition no_cidr := forall p u, owner_of ix c_subnets p u -> contains p a = false.
+  Definition no_cidr := forall p u, owner_of ix c_subnets p u -> contains p (fst a) = false.
 
-  (** ClientID, else exact address, else the containing prefix that is longest
-      (first in [subnet_compare] order among the containing ones), else the MAC
-      of the address' lease, else nobody. *)
+  (** ClientID, else exact address (zone included), else the prefix containing
+      the address without its zone that is longest (first in [subnet_compare]
+      order among the containing ones), else the MAC of the address' lease,
+      else nobody. *)
   Inductive resolves : option uid -> Prop :=
   | RCid u : owner_of ix c_cids id u -> resolves (Some u)
   | RIp u : no_cid -> owner_of ix c_ips a u -> resolves (Some u)
-  | RCidr u p : no_cid -> no_ip -> owner_of ix c_subnets p u -> contains p a = true ->
-      (forall p' u', owner_of ix c_subnets p' u' -> contains p' a = true ->
+  | RCidr u p : no_cid -> no_ip -> owner_of ix c_subnets p u -> contains p (fst a) = true ->
+      (forall p' u', owner_of ix c_subnets p' u' -> contains p' (fst a) = true ->
          snd p' <= snd p /\ (p' = p \/ subnet_compare p p' = Lt)) ->
       resolves (Some u)
   | RMac u m : no_cid -> no_ip -> no_cidr -> dhcp a = Some m -> owner_of ix c_macs m u ->
@@ -636,9 +658,9 @@ Section Precedence.
     destruct (find_by_cid ix id) as [u|] eqn:Ec; [apply RCid, Rc, Ec|].
     assert (Ncid : no_cid). { intros u Ho. apply Rc in Ho. congruence. }
     unfold find_by_ip.
-    destruct (bget a (ip_to ix)) as [u|] eqn:Ei; [apply RIp; [assumption|apply Ri, Ei]|].
+    destruct (zget a (ip_to ix)) as [u|] eqn:Ei; [apply RIp; [assumption|apply Ri, Ei]|].
     assert (Nip : no_ip). { intros u Ho. apply Ri in Ho. congruence. }
-    destruct (List.find (fun pu => contains (fst pu) a) (subnet_to ix)) as [[p u]|] eqn:Ef.
+    destruct (List.find (fun pu => contains (fst pu) (fst a)) (subnet_to ix)) as [[p u]|] eqn:Ef.
     - destruct (find_sorted_min _ _ _ _ (inv_sorted ix HI) Ef) as (Hin & Hc & Hmin). cbn [fst] in Hc.
       apply RCidr with (p := p); try assumption.
       + apply Rs. apply sm_sorted_in_get; [apply (inv_sorted ix HI)|assumption].
@@ -714,31 +736,39 @@ Definition ex_client (u : uid) (name : bytes) cids ips subnets macs (own ownb : 
      c_parental := false; c_own_blocked := ownb; c_blocked := Some [[120]];
      c_ignore_qlog := false; c_ignore_stats := false |}.
 
+Definition v4 (a b c d : N) : addr := ([a; b; c; d], []).
+Definition fe80_1 (zone : bytes) : addr := ([254;128;0;0;0;0;0;0;0;0;0;0;0;0;0;1], zone).
+Definition fe80_64 : prefix := ([254;128;0;0;0;0;0;0;0;0;0;0;0;0;0;0], 64).
+
 Definition ex_ops : list op :=
-  [ OAdd (ex_client 1 [97] [] [] [([10;0;0;0], 8)] [] true false);
-    OAdd (ex_client 2 [98] [[99;108;105]] [[10;1;2;3]] [([10;1;2;0], 24)] [] false true);
+  [ OAdd (ex_client 1 [97] [] [] [([10;0;0;0], 8); fe80_64] [] true false);
+    OAdd (ex_client 2 [98] [[99;108;105]] [v4 10 1 2 3] [([10;1;2;0], 24)] [] false true);
     OAdd (ex_client 3 [99] [] [] [([10;1;0;0], 16)] [[170;187;204;221;238;1]] true true);
-    OAdd (ex_client 4 [100] [] [[10;1;2;3]] [] [] true true);                      (* rejected: IP of b *)
-    OUpdate [99] (ex_client 9 [100] [] [[10;9;9;9]] [([10;1;0;0], 16)] [[170;187;204;221;238;1]] true true);
+    OAdd (ex_client 4 [100] [] [v4 10 1 2 3] [] [] true true);                      (* rejected: IP of b *)
+    OUpdate [99] (ex_client 9 [100] [] [v4 10 9 9 9; fe80_1 [101;116;104;48]] [([10;1;0;0], 16)] [[170;187;204;221;238;1]] true true);
     ORemove [122] ].
 
 Definition ex_ix : index := run ex_ops empty_index.
 Definition ex_dhcp (a : addr) : option bytes :=
-  if eqb_bytes a [192;168;1;5] then Some [170;187;204;221;238;1] else None.
+  if addr_eqb a (v4 192 168 1 5) then Some [170;187;204;221;238;1] else None.
 
 Lemma example_registry :
   Inv ex_ix /\
   length (by_uid ex_ix) = 3%nat /\
   (* ClientID beats the address; exact address beats prefixes; /24 beats /16 beats /8; lease MAC last *)
-  acf_find ex_ix ex_dhcp [99;108;105] [10;9;9;9] = Some 2 /\
-  acf_find ex_ix ex_dhcp [] [10;1;2;3] = Some 2 /\
-  acf_find ex_ix ex_dhcp [] [10;1;2;77] = Some 2 /\
-  acf_find ex_ix ex_dhcp [] [10;1;200;1] = Some 3 /\
-  acf_find ex_ix ex_dhcp [] [10;200;0;1] = Some 1 /\
-  acf_find ex_ix ex_dhcp [] [192;168;1;5] = Some 3 /\
-  acf_find ex_ix ex_dhcp [] [8;8;8;8] = None /\
+  acf_find ex_ix ex_dhcp [99;108;105] (v4 10 9 9 9) = Some 2 /\
+  acf_find ex_ix ex_dhcp [] (v4 10 1 2 3) = Some 2 /\
+  acf_find ex_ix ex_dhcp [] (v4 10 1 2 77) = Some 2 /\
+  acf_find ex_ix ex_dhcp [] (v4 10 1 200 1) = Some 3 /\
+  acf_find ex_ix ex_dhcp [] (v4 10 200 0 1) = Some 1 /\
+  acf_find ex_ix ex_dhcp [] (v4 192 168 1 5) = Some 3 /\
+  acf_find ex_ix ex_dhcp [] (v4 8 8 8 8) = None /\
+  (* zones: the exact map is keyed with the zone, the prefix test strips it *)
+  acf_find ex_ix ex_dhcp [] (fe80_1 [101;116;104;48]) = Some 3 /\
+  acf_find ex_ix ex_dhcp [] (fe80_1 [101;116;104;49]) = Some 1 /\
+  acf_find ex_ix ex_dhcp [] (fe80_1 []) = Some 1 /\
   (* rejected operations *)
-  snd (step ex_ix (OAdd (ex_client 5 [101] [] [[10;9;9;9]] [] [] true true))) = EIP /\
+  snd (step ex_ix (OAdd (ex_client 5 [101] [] [v4 10 9 9 9] [] [] true true))) = EIP /\
   snd (step ex_ix (OUpdate [97] (ex_client 6 [98] [] [] [([10;0;0;0], 8)] [] true true))) = EName /\
   (* an accepted update that keeps its own identifiers *)
   snd (step ex_ix (OUpdate [97] (ex_client 7 [97] [] [] [([10;0;0;0], 8); ([10;2;0;0], 8)] [] false false))) = EOk.
